@@ -51,11 +51,21 @@ RegisterVerdict(e) ==
       exp(k) == \A j \in 1..(k - 1) : h[j].ok => ~RegOverlaps(h[j], h[k]) IN
   IF \E k \in 1..Len(h) : h[k].ok # exp(k) THEN {[c |-> "register", names |-> {}]} ELSE {}
 
+\* parameter reads of active rules: [k = "reads", day, items = <<[rule, group, key]>>] -- every top-level parameter
+\* that a rule of the day's dependency graph subscripts with a constant key must exist in the environment of the day
+SetupDerived == {"einführungsfaktor_vorsorgeaufw_alter_ab_2005", "datum", "rounding"}
+ReadsVerdict(e) ==
+  LET missing == {i \in 1..Len(e.items) :
+                    /\ e.items[i].key \notin SetupDerived
+                    /\ e.items[i].group \in GroupNames(Raw)
+                    /\ e.items[i].key \notin Names(Expected(Raw, e.items[i].group, e.day))} IN
+  IF missing = {} THEN {} ELSE {[c |-> "read-of-absent-parameter", names |-> {e.items[i].rule \o ":" \o e.items[i].group \o "." \o e.items[i].key : i \in missing}]}
+
 Init == l = 1 /\ bad = {} /\ stats = [env |-> 0, funcs |-> 0, interior |-> 0]
 Step ==
   /\ l <= Len(Trace)
   /\ LET e == Trace[l]
-         v == IF e.k = "env" THEN EnvVerdict(e) ELSE IF e.k = "register" THEN RegisterVerdict(e) ELSE FuncsVerdict(e) IN
+         v == IF e.k = "env" THEN EnvVerdict(e) ELSE IF e.k = "register" THEN RegisterVerdict(e) ELSE IF e.k = "reads" THEN ReadsVerdict(e) ELSE FuncsVerdict(e) IN
      /\ bad' = bad \cup {[e |-> l, c |-> x.c, names |-> x.names] : x \in v}
      /\ stats' = [env |-> stats.env + (IF e.k = "env" THEN 1 ELSE 0),
                   funcs |-> stats.funcs + (IF e.k = "funcs" THEN 1 ELSE 0),
